@@ -7,6 +7,31 @@ ROOT = os.path.dirname(os.path.dirname(os.path.abspath(__file__)))
 
 # id -> (level category, technique, level text, level note, design section)
 CHECKS = {
+ "C02": ("exploration",
+         "ground truth by construction over enumerated link-file populations + result-map inspection, repeated for map order",
+         "InTotoVerify and VerifyLinkSignatureThesholds run on every multiset (size<=2 quick / <=3 thorough, plus random larger ones) over a catalogue of 21 labelled link kinds per step, for thresholds 1-3, three authorization modes and both wrappers; the generator knows how many distinct authorized functionaries legitimately count, so both directions of the property are decided; every mixed population is verified 8 times, half of the runs with a foreign intermediate passed by the caller.",
+         "Trusted: the labels of the link kinds (harness/props/c02.go). Two kinds are not judged (junk entry with the signer's own id first; an authorized functionary's link for another step renamed). Open known finding F6 (DSSE links cannot carry certificates).",
+         "C02"),
+ "C05": ("exploration",
+         "ground truth by construction + metamorphic pairs (uncounted links added) + summary comparison, repeated for map order",
+         "Chains of 1-4 steps with 1-3 counted links per step; a single difference in one counted link must reject; adding unsigned / unauthorized / tampered links with other artifacts must change neither verdict nor summary (rules are written so that evaluating them on such a link would flip the verdict); the returned summary is compared with (requested name, first-step materials, last-step products).",
+         "Trusted: generator bookkeeping. Every validly signed authorized link is taken to count, also beyond the threshold.",
+         "C05"),
+ "C06": ("exploration",
+         "call-bracket oracle (t0/t1 sampled around the call) + marker files + trace automaton",
+         "A catalogue of expiry strings (past/future offsets from seconds to a century, malformed and arguable forms, 'valid when built, expired when verified') is run through both wrappers, both entry points, flat and nested chains; expired/malformed must be rejected with no inspection run at or below the affected level; controls must be accepted (observation floor).",
+         "Trusted: the system clock only through the bracket [t0,t1] sampled around each call; cases inside the bracket are inconclusive.",
+         "C06"),
+ "C07": ("exploration",
+         "ground truth by construction (chains and attribute lists built by the harness) observed at three boundaries",
+         "12 chain shapes x attribute/constraint forms for all five attributes, pairs of attributes, 1-3 constraints, root constraints and cross-step cases are observed through Step.CheckCertConstraints, CertificateConstraint.Check and InTotoVerify on a certificate-signed link.",
+         "Trusted: crypto/x509 for issuing the test chains; abstention where the statement is silent (same-set duplicates, '*' among other entries, non-wildcard roots containing the chain's root).",
+         "C07"),
+ "C08": ("exploration",
+         "ground truth by construction over nestings with one placed defect + marker files + sublayout_enter hook events + trace automaton",
+         "2- and 3-level nestings are built bottom-up with one defect of 8 kinds at every level and step, parent rules of the true-summary and inner-artifact flavour, unauthorized sublayouts next to honest evidence, plain+sublayout and twin-sublayout threshold steps; verdict, followed sublayouts and executed inspections are compared with what the construction implies.",
+         "Trusted: the nesting builder (harness/gen/nested.go). Certificate-authorized sublayout signers are not exercised.",
+         "C08"),
  "C13": ("exploration",
          "reference-model monitor (independent recorder on the same real trees) + real EACCES faults under an unprivileged uid",
          "RecordArtifacts, InTotoRun, InTotoRecordStart/Stop and InTotoMatchProducts run on seeded real directory trees (symlinks, chains, cycles, CR/LF mixes) under all switch combinations; an independent recorder (own walk, kernel path resolution, crypto/* digests) is the oracle for maps and for required errors; one worker runs as uid 65534 and makes every entry of a tree unreadable in turn (fault enumeration inside an exploration claim).",
